@@ -35,6 +35,13 @@ def lean_part(rep, pid):
 def finish_proof(rep, lean, found_input):
     """A broken proof obligation is a violation even without a failing input."""
     from .. import corr as K
+    if K.CRASHES and not any("crash" in c or "sanitizer" in c or "signal" in c or "stack-or-hang" in c or "race" in c or "resource" in c or "gcd/" in c
+                             for c, _, _ in rep.violations):
+        cfg, mode, style, ls, rc, err = K.CRASHES[0]
+        head = next((l for l in err.split("\n") if "ERROR" in l or "runtime error" in l or "WARNING: " in l), err.strip().split("\n")[0] if err.strip() else "")
+        rep.finding("crash", "the library crashed or a sanitizer reported an error (%s build, exit %s): %s" % (mode, rc, head[:200]),
+                    {"kind": "lines", "config": cfg, "mode": mode, "style": style, "lines": ls, "stderr": err})
+        found_input = True
     if K.UNSUPPORTED:
         missing = sorted(set(h for cfg in K.UNSUPPORTED for h in C.missing_helpers(cfg)))
         rep.coverage["unsupported_lines"] = dict(K.UNSUPPORTED)
